@@ -47,8 +47,8 @@ def tensor_bytes(t: torch.Tensor) -> bytes:
     c = torch.empty(t.numel(), dtype=t.dtype)
     c.copy_(t.detach().reshape(-1))          # fresh stride-1 storage whatever t's layout
     if c.dtype == torch.bool:
-        return bytes(c.to(torch.uint8).tolist())
-    return bytes(c.view(torch.uint8).tolist())
+        return c.to(torch.uint8).numpy().tobytes()
+    return c.view(torch.uint8).numpy().tobytes()
 
 
 _PATTERNS = {
@@ -170,6 +170,10 @@ def build_leaf(d: Dict[str, Any]) -> Any:
     t = d["t"]
     if t == "tensor":
         return build_tensor(d)
+    if t == "tensor_big":
+        # a large tensor described by (dtype, n, seed) instead of a byte list (keeps cases JSON-able)
+        base = (torch.arange(d["n"], dtype=torch.int64) * 2654435761 + d.get("seed", 0)) % 251
+        return base.to(NAME_DT[d["dtype"]])
     if t == "float":
         return struct.unpack("<d", struct.pack("<Q", d["bits"]))[0]
     if t == "bytes":
